@@ -22,6 +22,7 @@ import (
 	"fmt"
 	"strconv"
 	"strings"
+	"unicode"
 
 	"deps.dev/util/resolve/version"
 )
@@ -64,12 +65,14 @@ func buildParsingDict(keys []version.AttrKey) map[string]version.AttrKey {
 }
 
 // Parse parses the given string and returns the corresponding version
-// attribute. Keys and values are space separated.
+// attribute. Keys and values are space separated. A value that starts with a
+// double quote is a Go string literal without literal spaces (see String).
 // Examples:
 //
 //	Bundle
 //	Redirect name
 //	Redirect name Bundle
+//	Redirect "" Ident "two\x20words"
 func ParseString(s string) (version.AttrSet, error) {
 	var attr version.AttrSet
 	items := strings.Fields(s)
@@ -86,7 +89,15 @@ func ParseString(s string) (version.AttrSet, error) {
 			return version.AttrSet{}, fmt.Errorf("missing value for %s", key)
 		}
 		i++
-		attr.SetAttr(key, items[i])
+		value := items[i]
+		if value[0] == '"' {
+			uq, err := strconv.Unquote(value)
+			if err != nil {
+				return version.AttrSet{}, fmt.Errorf("bad quoted value %s for %s", value, key)
+			}
+			value = uq
+		}
+		attr.SetAttr(key, value)
 	}
 	return attr, nil
 }
@@ -128,9 +139,17 @@ func String(attr version.AttrSet) string {
 	for _, key := range allKeys {
 		if value, ok := attr.GetAttr(key); ok {
 			ss = append(ss, strings.ToLower(key.String()))
-			if value != "" {
-				ss = append(ss, value)
+			if flagKeys[key] {
+				continue
 			}
+			// ParseString splits on white space and expects a value after
+			// every key that is not a flag: write an empty value, a value
+			// holding white space and a value that looks quoted as a
+			// string literal whose spaces are escaped.
+			if value == "" || value[0] == '"' || strings.IndexFunc(value, unicode.IsSpace) >= 0 {
+				value = strings.ReplaceAll(strconv.Quote(value), " ", `\x20`)
+			}
+			ss = append(ss, value)
 		}
 	}
 	return strings.Join(ss, " ")
